@@ -403,3 +403,37 @@ fn nf_reductions() {
         }
     }
 }
+
+// C11 / C04 / C09 (release profile with debug assertions and overflow checks ON; see vp_lib/native.py): a sweep over consecutive seeds
+// le64(i) || 0^24. For every generated pair the derived public key serialises to the generated public key's bytes and no self-check or
+// overflow check fires; every 32nd pair is also reloaded from its serialisation and re-serialised. A sample (rare per-coefficient
+// events have probability about 1e-4 per key, hence the tens of thousands of keys), not a proof.
+macro_rules! sweep_for {
+    ($m:ident, $t:expr, $n:expr) => {{
+        use crate::$m as M;
+        use crate::traits::{KeyGen, SerDes, Signer};
+        for i in 0u64..$n {
+            let mut seed = [0u8; 32];
+            seed[..8].copy_from_slice(&i.to_le_bytes());
+            let (pk, sk) = M::KG::keygen_from_seed(&seed);
+            let pkb = pk.into_bytes();
+            let derived = sk.get_public_key().into_bytes();
+            assert!(derived == pkb, "derived public key differs from the generated one for seed le64({}) || 0^24 ({})", i, $t);
+            if i % 32 == 0 {
+                let skb = sk.into_bytes();
+                let sk2 = M::PrivateKey::try_from_bytes(skb).expect("generated private key rejected");
+                assert!(sk2.clone().into_bytes() == skb, "private key does not round-trip for seed le64({}) || 0^24 ({})", i, $t);
+                assert!(sk2.get_public_key().into_bytes() == pkb, "public key derived from the reloaded private key differs for seed le64({}) || 0^24 ({})", i, $t);
+                let pk2 = M::PublicKey::try_from_bytes(pkb).expect("generated public key rejected");
+                assert!(pk2.into_bytes() == pkb, "public key does not round-trip for seed le64({}) || 0^24 ({})", i, $t);
+            }
+        }
+    }};
+}
+#[test]
+#[ignore]
+fn nf_key_sweep() {
+    sweep_for!(ml_dsa_44, "ml_dsa_44", 20_000u64);
+    sweep_for!(ml_dsa_65, "ml_dsa_65", 12_000u64);
+    sweep_for!(ml_dsa_87, "ml_dsa_87", 16_000u64);
+}
